@@ -16,6 +16,7 @@ F7_VARIANT = "f7_unrelated_removed"
 KEY_PANIC = "removeFromInFlightPQ-stale-index"
 KEY_VARIANT = "removeFromInFlightPQ-unrelated-removed"
 KEY_BADFILE = "diskqueue-bad-file-left-behind"
+KEY_ORPHAN = "orphan-durable-channel-under-ephemeral-topic"
 
 
 def tree_fixed():
@@ -89,6 +90,16 @@ def replay_known(ctx, binp):
         elif left:
             ctx.violation("files-left-behind:replay", "deleted channel dq:c leaves %s" % left,
                           open(os.path.join(ROOT, "corpus", "C08", "known", "dq_bad_file_after_delete.sched")).read())
+    rc, kv, out = run_sched(ctx, binp, "orphan_resurrect")
+    res["orphan_resurrect"] = kv or {"error": out[-300:]}
+    if not kv:
+        ctx.broken_ties.append("replay orphan_resurrect did not run (rc=%s)" % rc)
+    else:
+        ctx.evaluations += 1
+        if kv.get("recreated_depth", "0") != "0":
+            ctx.violation(KEY_ORPHAN, "re-created e#ephemeral:c starts with depth %s (files %s survived the restart)"
+                          % (kv.get("recreated_depth"), kv.get("files")),
+                          open(os.path.join(ROOT, "corpus", "C08", "known", "orphan_resurrect.sched")).read())
     ctx.corr["hook_replays"] = res
 
 
